@@ -326,6 +326,11 @@ def generator_exact_size(repo, rep, fname, size_text_fn, where):
       if isinstance(sub, ast.Yield) and sub.value is not None:
         n_y += 1
         size = size_text_fn(f, n)
+        if size == 'NO-LOOP':
+          rep.violation('R1/sizes', f.qualname, 'yield %s outside the loop over admissible sizes' % norm(sub.value)[:60],
+                        '%s yields `%s` outside the loop over the admissible group sizes: the group is produced whatever the size range and ratio tolerance allow'
+                        % (fname, norm(sub.value)[:60]), f.loc(sub))
+          continue
         if size is None:
           rep.undecided('R1/sizes', '%s yield' % fname, 'requested size not identified', f.loc(sub))
           continue
@@ -521,6 +526,14 @@ def provenance_sizes(repo, rep, view, P_, kappa):
 
       def csize(ff, n):
         # the yield sits in `for n_control_geos in self._control_group_size_generator(len(T))`
+        par = getattr(n.ast, '_parent', None)
+        in_loop = False
+        while par is not None and par is not ff.node:
+          if isinstance(par, (ast.For, ast.While)):
+            in_loop = True
+          par = getattr(par, '_parent', None)
+        if not in_loop:
+          return 'NO-LOOP'
         for h in cctx.g.nodes:
           if h.kind == 'for' and n in cctx.g.loop_body_nodes(h):
             it = norm(cctx.rd.expand(h, h.ast.iter, keep=tuple(ff.params))[0])
@@ -580,3 +593,10 @@ def run(repo, rep, tier):
     n_enf += sum(1 for v in res.values() if v)
     rep.extra.setdefault('enforcement', {})[name] = {k: (v[0] if v else None) for k, v in res.items()}
   rep.floor('(search, constraint) pairs with an enforcement found', n_enf, 12)
+  # the shares and series the tests read are those of the data object (C04.R4): share array = geo_share[geo index]
+  from mmsa.props import c04
+  sub = type(rep)(rep.prop, rep.tier, rep.repo)
+  c04.r4_data_object(repo, sub)
+  for i in sub.instances:
+    i.rule = 'R1/quantities'
+    rep.instances.append(i)
